@@ -36,6 +36,7 @@ type Obl struct {
 	Bounded string // non-empty: result is bounded (unroll k), never counted as proved
 	Pos    string
 	Replay *replaySpec
+	PreInsts []*OblInst // covers: the states before the assumption under test was added
 }
 
 type Unit struct {
@@ -147,6 +148,17 @@ func (u *Unit) cover(st *State, name, text string) {
 		u.order = append(u.order, full)
 	}
 	o.Insts = append(o.Insts, &OblInst{Hyp: st.hyp(), Goal: "false"})
+}
+
+func (u *Unit) coverWithPre(st, pre *State, name, text string) {
+	if u.quiet > 0 {
+		return
+	}
+	u.cover(st, name, text)
+	full := u.name + "#" + name
+	if o := u.obls[full]; o != nil {
+		o.PreInsts = append(o.PreInsts, &OblInst{Hyp: pre.hyp(), Goal: "false"})
+	}
 }
 
 func (u *Unit) stale(name, why string) {
